@@ -368,7 +368,8 @@ def gen_scenarios(spec, rng, n):
     out = []
     for i in range(n):
         ops = []
-        nops = rng.randint(1, 5)
+        from ..rng import deep
+        nops = rng.randint(1, 10 if deep() else 5)
         fs, s, m = rng.choice(cands)
         for j in range(nops):
             if rng.random() < 0.45:
